@@ -23,7 +23,7 @@ CORE_ALLOWED = ("str_with_squote", "kwargs_param", "multiline_summary", "float_d
 FRONTIER_KNOBS = irprops.frontier_knobs((
     "untyped_param", "undocumented_param", "default_without_prose", "bare_param", "empty_str",
     "str_with_quote", "code_default", "code_default_dot", "int_under_nonscalar_type",
-    "nodefault_after_default", "returns", "returns_default", "returns_untyped", "returns_undocumented", "returns_only",
+    "nodefault_after_default", "returns", "returns_default", "returns_default_plain", "returns_untyped", "returns_undocumented", "returns_only",
     "multiline_prose", "foreign_tokens",
 ))
 FLOORS = {"has_default": 0.3}
